@@ -14,6 +14,10 @@
 import YtkProofs.Builder
 import YtkProofs.LensIdx
 import YtkProofs.ValidB
+import YtkProofs.HeapBuilder
+import YtkProofs.HeapBuilderRefine
+import YtkProofs.HeapBuild
+import YtkProofs.HeapBuilderRun
 
 namespace Ytk.C03
 
@@ -148,5 +152,402 @@ theorem nonvacuous_divergeIdx :
     .idx (by decide +kernel) ⟨[2], 5, 1, [], [], ?_, ?_, by decide⟩,
     fitsB_sound _ _ (by decide +kernel), by decide +kernel, by decide +kernel, by decide +kernel,
     by decide +kernel⟩ <;> decide +kernel
+
+/-! ## Pointer level: the path-level builder API on the heap model (YtkModel/HeapBuilder.lean)
+
+  The theorems above live in a value model, where "a handle stays attached", "AddContainer yields a
+  fresh container" or "the node itself is stored" cannot even be said.  Below a document is a root
+  ADDRESS in a heap of cells (YtkModel/Heap.lean), a handle — what AddContainer / AddList / Child /
+  Lookup return — is an address, and the builder calls are the store-passing functions of
+  YtkModel/HeapBuilder.lean (`addH` = AddValue, `addValueAtH`, `addContainerH`, `removeAtH`, `childH`,
+  `lookupH`, `listSet`, `compactH`, histories `HOp` / `hstep`).
+
+  `Inv h`: closed, acyclic (ranked), sorted children maps, cell 0 = the shared nil leaf.
+  `Apart h x y`: the graphs below `x` and `y` share at most leaves.  `SibSep h r`: the graph below `r`
+  is a tree apart from shared leaves. -/
+
+section heap
+open Ytk.Heap
+
+/-- REFINEMENT: on a well-formed heap whose graph below the handle `c` is a tree apart from shared
+    leaves (`SibSep`), with a value node that shares at most leaves with it (`Apart`), the document
+    below `c` after the heap-level `AddValueAt` is the value-level `addValueAt` of the document before
+    with the value's abstraction — and the heap is well-formed again.  This transfers every theorem
+    above (set-get, frame, padding, validity, …) to the pointer level.  Every path string. -/
+theorem heap_addValueAt_abs (h h' : Heap) (c v : Addr) (d : AMap Node) (vn : Node) (path : String)
+    (hi : Inv h) (hs : SibSep h c) (hap : Apart h c v) (hcl : c < h.size) (hvl : v < h.size)
+    (hd : abs h c = some (.cont d)) (hv : abs h v = some vn) (he : addValueAtH h c path v = some h') :
+    Inv h' ∧ abs h' c = some (.cont (addValueAt d path vn)) :=
+  addValueAtH_refines hi hs hap hcl hvl hd hv he
+
+/-- … with a NEWLY BUILT value node (`build h n`: what `dom.LeafNode` / `ListNode` / a new container
+    filled by `AddValue` give — every cell new) all hypotheses on the value are met by construction:
+    for every well-formed value-level node `n`, `AddValueAt(path, <new n>)` / `AddValue(name, <new n>)`
+    on a tree-shaped document is the value-level `addValueAt d path n` / `add d name n`. This is
+    literally what the model driver executes for a harness case. -/
+theorem heap_addValueAt_build_abs (h h' : Heap) (c : Addr) (d : AMap Node) (n : Node) (hi : Inv h) (hwf : n.WF)
+    (hcl : c < h.size) (hs : SibSep h c) (hd : abs h c = some (.cont d)) :
+    (∀ path, addValueAtH (build h n).1 c path (build h n).2 = some h' →
+      Inv h' ∧ abs h' c = some (.cont (addValueAt d path n))) ∧
+    (∀ name, addH (build h n).1 c name (build h n).2 = some h' →
+      Inv h' ∧ abs h' c = some (.cont (add d name n))) :=
+  ⟨fun _ he => addValueAt_build_refines hi n hwf hcl hs hd he, fun _ he => addValue_build_refines hi n hwf hcl hs hd he⟩
+
+/-- REFINEMENT of `RemoveAt` / `Remove`. -/
+theorem heap_removeAt_abs (h h' : Heap) (c : Addr) (d : AMap Node) (hi : Inv h) (hcl : c < h.size)
+    (hd : abs h c = some (.cont d)) :
+    (∀ path, SibSep h c → removeAtH h c path = some h' → Inv h' ∧ abs h' c = some (.cont (removeAt d path))) ∧
+    (∀ name, Ytk.Heap.remove h c name = some h' → Inv h' ∧ abs h' c = some (.cont (Ytk.remove d name))) :=
+  ⟨fun _ hs he => removeAtH_refines hi hs hcl hd he, fun _ he => remove_refines hi hcl hd he⟩
+
+/-- REFINEMENT of `AddValue` / `AddContainer` / `AddList` (names with index groups included):
+    value-level `add` with the value's abstraction / an empty container / an empty list. -/
+theorem heap_add_abs (h h' : Heap) (c : Addr) (d : AMap Node) (name : String) (hi : Inv h) (hs : SibSep h c)
+    (hcl : c < h.size) (hd : abs h c = some (.cont d)) :
+    (∀ v vn, Apart h c v → v < h.size → abs h v = some vn → addH h c name v = some h' →
+      Inv h' ∧ abs h' c = some (.cont (add d name vn))) ∧
+    (∀ b, addContainerH h c name = some (h', b) → Inv h' ∧ abs h' c = some (.cont (add d name (.cont [])))) ∧
+    (∀ b, addListH h c name = some (h', b) → Inv h' ∧ abs h' c = some (.cont (add d name (.list [])))) :=
+  ⟨fun _ _ hap hvl hv he => addH_refines hi hs hap hcl hvl hd hv he,
+   fun _ he => addContainerH_refines hi hs hcl hd he, fun _ he => addListH_refines hi hs hcl hd he⟩
+
+/-- REFINEMENT of `ListBuilder.Set` / `Append` / `Clear` / `MustSet` on the list cell `l` (no tree
+    hypothesis needed: one cell is written; the value must not reach the list). `MustSet`: in range it
+    writes the slot, out of range BOTH models panic. -/
+theorem heap_listSet_abs (h h' : Heap) (l v : Addr) (ns : List Node) (vn : Node) (i : Nat) (hi : Inv h)
+    (hvl : ¬ Reach h v l) (hll : l < h.size) (hvlt : v < h.size) (hd : abs h l = some (.list ns))
+    (hv : abs h v = some vn) :
+    (Ytk.Heap.listSet h l i v = some h' → Inv h' ∧ abs h' l = some (.list (listSet ns i vn))) ∧
+    (Ytk.Heap.listAppend h l v = some h' → Inv h' ∧ abs h' l = some (.list (listAppend ns vn))) ∧
+    (listClear h l = some h' → Inv h' ∧ abs h' l = some (.list [])) ∧
+    (i < ns.length → ∃ h2 f', listMustSetH h l i v = .ok h2 ∧ absH f' h2 l = some (.list (ns.set i vn)) ∧
+      listMustSet ns i vn = .ok (ns.set i vn)) ∧
+    (ns.length ≤ i → listMustSetH h l i v = .panic ∧ listMustSet ns i vn = .panic) := by
+  obtain ⟨rank, hr⟩ := hi.acyclic
+  have hms := Refine.listMustSetH_abs (i := i) hi.closed hr hvl (abs_absH hd) (abs_absH hv)
+  exact ⟨fun he => listSet_refines hi hvl hll hvlt hd hv he, fun he => listAppend_refines hi hvl hll hvlt hd hv he,
+    fun he => listClear_refines hi hd he, hms.1, hms.2⟩
+
+/-- REFINEMENT of `Walk(CompactFn)`: the value-level `compactKvs` (so `compact_flatten`,
+    `compact_no_empty` hold at pointer level). -/
+theorem heap_compact_abs (h h' : Heap) (c : Addr) (d : AMap Node) (hi : Inv h) (hs : SibSep h c)
+    (hd : abs h c = some (.cont d)) (he : compactH h c = some h') :
+    Inv h' ∧ abs h' c = some (.cont (compactKvs d)) :=
+  compactH_refines hi hs hd he
+
+/-- SET-GET, pointer level: after `AddValueAt(path, v)` on the handle `c`, `Lookup(path)` returns the
+    very node `v` that was passed in — it is attached itself, not a copy (the documented sharing of
+    the builder API). Every path string. -/
+theorem heap_addValueAt_stores_node (h h' : Heap) (rank : Addr → Nat) (c v : Addr) (path : String)
+    (hc : h.Closed) (hr : h.RankedBy rank) (hn : h.NilOk) (hm : h.MapsOk) (hv : v < h.size) (hcl : c < h.size)
+    (hp : path ≠ "") (he : addValueAtH h c path v = some h') : lookupH h' c path = some v := by
+  simp only [lookupH, if_neg hp]
+  exact addAtSegsH_lookup hc hr hn hm hv _ c h' (splitPath_ne_nil path) hcl he
+
+/-- … and for a direct member (`AddValue`, names with index groups included): `Child(name)` is `v`. -/
+theorem heap_add_stores_node (h h' : Heap) (rank : Addr → Nat) (c v : Addr) (name : String)
+    (hr : h.RankedBy rank) (hn : h.NilOk) (he : addH h c name v = some h') : childH h' c name = some v :=
+  addH_child hr hn he
+
+/-- `AddContainer(name)` / `AddList(name)` return a FRESHLY ALLOCATED, EMPTY cell — its address is
+    not an address of the old heap, whatever was stored under the name before (an existing container
+    there is detached, never reused) —, `Child(name)` returns that cell, and at most one existing cell
+    (reachable from the handle) is written. -/
+theorem heap_addContainer_fresh (h h2 : Heap) (rank : Addr → Nat) (c b : Addr) (name : String)
+    (hc : h.Closed) (hr : h.RankedBy rank) (hn : h.NilOk) (hm : h.MapsOk) (hcl : c < h.size) :
+    (addContainerH h c name = some (h2, b) →
+      b = h.size ∧ h2.get? b = some (.cont []) ∧ childH h2 c name = some b ∧
+        ∃ w, Reach h c w ∧ ∀ a, a < h.size → a ≠ w → h2.get? a = h.get? a) ∧
+    (addListH h c name = some (h2, b) →
+      b = h.size ∧ h2.get? b = some (.list []) ∧ childH h2 c name = some b ∧
+        ∃ w, Reach h c w ∧ ∀ a, a < h.size → a ≠ w → h2.get? a = h.get? a) :=
+  ⟨addContainerH_fresh hc hr hn hm hcl, addListH_fresh hc hr hn hm hcl⟩
+
+/-- WRITE SET of `AddValueAt`: exactly ONE existing cell `w` can change — a container or list on
+    the walked path (reachable from the handle; it keeps its kind) —, every other existing cell is
+    what it was, and everything reachable from the handle afterwards was reachable before, or is
+    freshly allocated, or lies below the value node, or is the shared nil leaf (padding). -/
+theorem heap_addValueAt_writes (h h' : Heap) (rank : Addr → Nat) (c v : Addr) (path : String)
+    (hc : h.Closed) (hr : h.RankedBy rank) (hn : h.NilOk) (hm : h.MapsOk) (hv : v < h.size) (hcl : c < h.size)
+    (he : addValueAtH h c path v = some h') :
+    ∃ w, Reach h c w ∧ Composite h w ∧ Composite h' w ∧
+      (∀ a, a < h.size → a ≠ w → h'.get? a = h.get? a) ∧
+      (∀ b, Reach h' c b → Reach h c b ∨ h.size ≤ b ∨ Reach h v b ∨ b = nilAddr) := by
+  obtain ⟨w, spec⟩ := addAtSegsH_spec hc hr hn hm hv _ c h' (splitPath_ne_nil path) hcl he
+  refine ⟨w, spec.reach_w, spec.composite_w, ?_, spec.frame, fun b hb => spec.reach_after hc hn hv hcl hb⟩
+  obtain ⟨cw, cw', _, h2w, hleaf, hl, hcn, _⟩ := spec.written
+  refine ⟨cw', h2w, ?_⟩
+  cases cw' with
+  | leaf s => cases cw <;> simp_all [Cell.isLeaf, Cell.isList, Cell.isCont]
+  | list _ => rfl
+  | cont _ => rfl
+
+/-- HANDLES ARE PATHS: when the walk of `path` from the root ends in the container `x` (the handle an
+    earlier AddContainer / Child / Lookup returned), a call made on the handle IS the path-level call
+    made on the root — `x.AddValue(last, v)` = `root.AddValueAt(path, v)`, `x.Remove(last)` =
+    `root.RemoveAt(path)`, `x.Child(last)` = `root.Lookup(path)` — the same heap results, literally.
+    So every refinement / set-get / frame law of the path-level calls holds for writes through a live
+    handle. -/
+theorem heap_handle_live (h : Heap) (root x v : Addr) (segs : List String) (ha : ancestorH h root segs = some x) :
+    Reach h root x ∧ ∃ last, segs.getLast? = some last ∧
+      addAtSegsH h root segs v = addH h x last v ∧
+      removeAtSegsH h root segs = Ytk.Heap.remove h x last ∧
+      lookupSegsH h root segs = childH h x last :=
+  ⟨ancestorH_reach segs root x ha, ancestorH_spec v segs root x ha⟩
+
+/-- … hence a write through a LIVE handle is visible from the root exactly as the value-level edit at
+    the handle's path: `x.AddValue(last, v)` changes `abs root` to `addAtSegs d segs vn`. -/
+theorem heap_handle_live_abs (h h' : Heap) (root x v : Addr) (d : AMap Node) (vn : Node) (segs : List String)
+    (last : String) (hi : Inv h) (hs : SibSep h root) (hap : Apart h root v) (hrl : root < h.size) (hvl : v < h.size)
+    (hd : abs h root = some (.cont d)) (hv : abs h v = some vn)
+    (ha : ancestorH h root segs = some x) (hl : segs.getLast? = some last) (he : addH h x last v = some h') :
+    Inv h' ∧ abs h' root = some (.cont (addAtSegs d segs vn)) := by
+  obtain ⟨last', hl', h1, _, _⟩ := ancestorH_spec v segs root x ha
+  rw [hl] at hl'; cases hl'
+  rw [← h1] at he
+  exact addAtSegsH_refines hi hs hap hrl hvl hd hv (by intro e; rw [e] at hl; cases hl) he
+
+/-- HANDLES STAY ATTACHED (frame at pointer level): in a tree-shaped document, `AddValueAt(ps, v)` and
+    `RemoveAt(ps)` (last component a plain member name, the domain of remove paths) do not move what
+    `Lookup(qs)` finds when the two paths diverge by key after a common prefix (`Diverge`, as in
+    `addValueAt_frame`): the handle obtained at `qs` is still the node stored there — pointer-identical,
+    not merely equal in content.  With `heap_handle_live` this covers writes made through OTHER handles. -/
+theorem heap_handle_stays (h h' : Heap) (rank : Addr → Nat) (c v x : Addr) (ps qs : List String)
+    (hc : h.Closed) (hr : h.RankedBy rank) (hn : h.NilOk) (hm : h.MapsOk) (hs : SibSep h c) (hv : v < h.size)
+    (hcl : c < h.size) (hd : Diverge ps qs) (hl : lookupSegsH h c qs = some x) :
+    (addAtSegsH h c ps v = some h' → lookupSegsH h' c qs = some x) ∧
+    (LastPlain ps → removeAtSegsH h c ps = some h' → lookupSegsH h' c qs = some x) :=
+  ⟨fun he => addAtSegsH_lookup_frame hc hr hn hm hv ps qs hd c h' x hs hcl he hl,
+   fun hlp he => removeAtSegsH_lookup_frame hc hr ps qs hd hlp c h' x hs he hl⟩
+
+/-- `SibSep` cannot be dropped: when ONE container object is attached at two places
+    (`dagB`: root #2 = {p: #1, q: #1}), `AddValueAt("p.z", v)` also changes what is found below `q` —
+    the document is no longer what the value-level `addValueAt` (an edit of a plain TREE) predicts.
+    (A plain Go `map[string]any` holding one inner map twice behaves the same way.) -/
+def dagB : Heap := ⟨[.leaf Scalar.null, .cont [], .cont [("p", 1), ("q", 1)], .leaf ⟨"string", "v"⟩]⟩
+
+theorem heap_shared_node_counterexample :
+    dagB.Closed ∧ dagB.Acyclic ∧ dagB.MapsOk ∧ ¬ SibSep dagB 2 ∧
+    ((addValueAtH dagB 2 "p.z" 3).bind fun h' => abs h' 2) =
+      some (.cont [("p", .cont [("z", .leaf ⟨"string", "v"⟩)]), ("q", .cont [("z", .leaf ⟨"string", "v"⟩)])]) ∧
+    (abs dagB 2).map (fun n => match n with
+      | .cont d => Node.cont (addValueAt d "p.z" (.leaf ⟨"string", "v"⟩))
+      | n => n) =
+      some (.cont [("p", .cont [("z", .leaf ⟨"string", "v"⟩)]), ("q", .cont [])]) := by
+  refine ⟨closed_of_all (by decide), ⟨fun a => if a = 2 then 1 else 0, rankedBy_of_all (by decide)⟩,
+    mapsOk_of_all (by decide +kernel), ?_, by decide +kernel, by decide +kernel⟩
+  intro hs
+  exact hs 2 _ (.refl _) (show dagB.get? 2 = some (.cont [("p", 1), ("q", 1)]) from rfl) 0 1 1 1 rfl rfl (by decide)
+    1 (.refl _) (.refl _) ⟨.cont [], rfl, rfl⟩
+
+/-- DETACHED HANDLES: any builder call (`op`, with any value node) made on a handle whose graph shares
+    no container / list with the graph below `root` leaves the document below `root` unchanged — at
+    every fuel, i.e. `abs root` is what it was. -/
+theorem heap_handle_detached (h h' : Heap) (op : HOp) (ret : Option Addr) (root : Addr) (hi : Inv h) (hok : op.Ok h)
+    (he : hstep h op = .ok (h', ret)) (hrl : root < h.size) (hap : Apart h root op.target) (f : Nat) :
+    absH f h' root = absH f h root := hstep_abs_frame hi hok he hrl hap f
+
+/-- … and overwriting / removing a position DETACHES the node that was stored there, at any depth
+    of a tree-shaped document: when the walk of the path ends in the existing container `x`, after
+    `root.RemoveAt(path)` or `root.AddValueAt(path, v)` (for a one-component path: `Remove` / `AddValue`;
+    `AddContainer` / `AddList`: `v` = the new cell) the node `y` that `Lookup(path)` returned before
+    shares no container / list with the graph below `root` any more — so by `heap_handle_detached`
+    later writes through the old handle `y`, or through any handle below it, are invisible from `root`.
+    Proved for paths whose LAST component is a plain member name (the full statement also covers a
+    last component `l[i]`, i.e. handles sitting in list slots). -/
+theorem heap_overwrite_detaches_partial (h h' : Heap) (rank : Addr → Nat) (root x y : Addr) (segs : List String)
+    (last : String) (hr : h.RankedBy rank) (hm : h.MapsOk) (hs : SibSep h root)
+    (ha : ancestorH h root segs = some x) (hl : segs.getLast? = some last) (hplain : hasIdxSuffix last = false)
+    (hy : lookupSegsH h root segs = some y) :
+    (removeAtSegsH h root segs = some h' → Apart h' root y) ∧
+    (∀ v, Apart h v y → ¬ Reach h v x → addAtSegsH h root segs v = some h' → Apart h' root y) :=
+  pathwrite_detaches hr hm hs ha hl hplain hy
+
+/-- … the same for handles sitting in LIST SLOTS, when the slot is overwritten / the list cleared through
+    the list (`ListBuilder.Set` / `MustSet` / `Clear` on a list `l` of the tree-shaped document): the
+    item `y` that was stored in slot `i` is detached from the whole document. -/
+theorem heap_list_overwrite_detaches (h h' : Heap) (rank : Addr → Nat) (root l y v : Addr) (xs : List Addr) (i : Nat)
+    (hr : h.RankedBy rank) (hs : SibSep h root) (hrl : Reach h root l) (hg : h.get? l = some (.list xs))
+    (hy : xs[i]? = some y) :
+    (Apart h v y → ¬ Reach h v l → Ytk.Heap.listSet h l i v = some h' → Apart h' root y) ∧
+    (Apart h v y → ¬ Reach h v l → listMustSetH h l i v = .ok h' → Apart h' root y) ∧
+    (listClear h l = some h' → Apart h' root y) :=
+  listwrite_detaches hr hs hrl hg hy
+
+/-- INVARIANT of one call: closed, acyclic, sorted maps, nil leaf — provided the call is made on an
+    existing cell and the node it attaches (if any) exists and reaches no container / list of the graph
+    below the handle (`HOp.Ok`; in particular it does not reach the cell it is stored in). -/
+theorem heap_step_closed (h h' : Heap) (op : HOp) (ret : Option Addr) (hi : Inv h) (hok : op.Ok h)
+    (he : hstep h op = .ok (h', ret)) : Inv h' := hstep_inv hi hok he
+
+/-- INVARIANT of every history in which each call is `Ok` in the heap it is applied to. -/
+theorem heap_run_closed (h h' : Heap) (ops : List HOp) (hrun : SafeRun h ops h') (hi : Inv h) :
+    Inv h' ∧ Ytk.Heap.hrun h ops = .ok h' := ⟨hrun.inv hi, hrun.hrun_ok⟩
+
+/-- TREE-NESS IS AN INVARIANT TOO: in a tree-shaped document every call made on a cell of the document
+    (the root or a live handle) that attaches a tree sharing at most leaves with the document
+    (`HOp.TreeOk`) leaves a well-formed, tree-shaped document — so the hypotheses of the refinement
+    theorems (`heap_addValueAt_abs` …) hold again after the call, and hence at EVERY step of a history
+    (`TreeRun`). -/
+theorem heap_run_tree (root : Addr) (h h' : Heap) (ops : List HOp) (hrun : TreeRun root h ops h') (hi : Inv h)
+    (hs : SibSep h root) (hrl : root < h.size) : Inv h' ∧ SibSep h' root ∧ root < h'.size :=
+  hrun.inv hi hs hrl
+
+theorem heap_step_tree (root : Addr) (h h' : Heap) (op : HOp) (ret : Option Addr) (hi : Inv h) (hs : SibSep h root)
+    (hrl : root < h.size) (hok : op.TreeOk h root) (he : hstep h op = .ok (h', ret)) :
+    Inv h' ∧ SibSep h' root := hstep_tree hi hs hrl hok he
+
+/-- … and each root-level call of such a history IS the value-level step `bstep` of
+    YtkModel/Builder.lean on the abstraction (`HOp.toBOp`: AddValue / AddValueAt / AddContainer / AddList /
+    Remove / RemoveAt / Walk(CompactFn); list calls go through their list handle: `heap_listSet_abs`). -/
+theorem heap_step_refines_bstep (h h' : Heap) (root : Addr) (op : HOp) (ret : Option Addr) (d : AMap Node)
+    (vn : Node) (bop : BOp) (hi : Inv h) (hs : SibSep h root) (hrl : root < h.size) (hok : op.TreeOk h root)
+    (htgt : op.target = root) (hd : abs h root = some (.cont d)) (hv : ∀ v, op.value = some v → abs h v = some vn)
+    (hb : op.toBOp vn = some bop) (he : hstep h op = .ok (h', ret)) :
+    ∃ d', bstep d bop = .ok d' ∧ abs h' root = some (.cont d') :=
+  hstep_bstep hi hs hrl hok htgt hd hv hb he
+
+/-- The hypothesis on the attached node cannot be dropped: attaching an ANCESTOR below itself
+    (`#2.AddValue("up", #1)` where #1 = {"a": #2}) gives a closed heap that is cyclic, and the
+    document has no abstraction any more (every traversal diverges) — the shape of D28. -/
+theorem heap_add_own_ancestor_cycle :
+    cycHeap.Closed ∧ cycHeap.Acyclic ∧
+    ∃ h', addH cycHeap 2 "up" 1 = some h' ∧ h'.Closed ∧ ¬ h'.Acyclic ∧ abs h' 1 = none :=
+  addH_own_ancestor_cycle
+
+/-! ### Non-vacuity on a concrete heap
+
+  `exB`: 0 nilLeaf · 1 leaf 1 · 2 {b: #1} · 3 = root {a: #2, n: nilLeaf} · 4 leaf "v" (a value to attach) -/
+def exB : Heap := ⟨[.leaf Scalar.null, .leaf ⟨"int", "1"⟩, .cont [("b", 1)], .cont [("a", 2), ("n", 0)],
+  .leaf ⟨"string", "v"⟩]⟩
+
+def exBRank : Addr → Nat | 3 => 2 | 2 => 1 | _ => 0
+
+theorem nonvacuous_heap_builder_inv : Inv exB ∧ exB.RankedBy exBRank ∧ SibSep exB 3 := by
+  have hr : exB.RankedBy exBRank := rankedBy_of_all (by decide)
+  refine ⟨⟨closed_of_all (by decide), ⟨exBRank, hr⟩, mapsOk_of_all (by decide +kernel), rfl⟩, hr, ?_⟩
+  intro a c _ hg i j ki kj hi hj hij
+  have halt : a < 5 := Heap.get?_lt hg
+  -- only the root has two slots; one of them is the nil leaf, which reaches only itself
+  have key : ki = 0 ∨ kj = 0 := by
+    match a, hg, halt with
+    | 0, hg, _ | 1, hg, _ | 4, hg, _ =>
+      simp only [exB, Heap.get?, List.getElem?_cons_zero, List.getElem?_cons_succ, Option.some.injEq] at hg
+      subst hg; simp [Cell.kids] at hi
+    | 2, hg, _ =>
+      simp only [exB, Heap.get?, List.getElem?_cons_zero, List.getElem?_cons_succ, Option.some.injEq] at hg
+      subst hg
+      simp only [Cell.kids, List.map_cons, List.map_nil] at hi hj
+      match i, j with
+      | 0, 0 => exact absurd rfl hij
+      | 0, j + 1 => simp at hj
+      | i + 1, _ => simp at hi
+    | 3, hg, _ =>
+      simp only [exB, Heap.get?, List.getElem?_cons_zero, List.getElem?_cons_succ, Option.some.injEq] at hg
+      subst hg
+      simp only [Cell.kids, List.map_cons, List.map_nil] at hi hj
+      match i, j with
+      | 0, 0 => exact absurd rfl hij
+      | 1, 1 => exact absurd rfl hij
+      | 0, 1 => right; simpa using hj.symm
+      | 1, 0 => left; simpa using hi.symm
+      | i + 2, _ => simp at hi
+      | 0, j + 2 => simp at hj
+      | 1, j + 2 => simp at hj
+    | a + 5, _, halt => exact absurd halt (Nat.not_lt.mpr (Nat.le_add_left 5 a))
+  intro b hb1 hb2 hcomp
+  have hb0 : b = 0 := by
+    rcases key with rfl | rfl
+    · exact Reach.of_leaf (h := exB) (s := Scalar.null) rfl hb1
+    · exact Reach.of_leaf (h := exB) (s := Scalar.null) rfl hb2
+  subst hb0
+  obtain ⟨cell, hgc, hl⟩ := hcomp
+  cases (Option.some.inj hgc : Cell.leaf Scalar.null = cell)
+  simp [Cell.isLeaf] at hl
+
+/-- `root.AddValueAt("a.c[1].d", #4)`: refines the value-level `addValueAt`, `Lookup` returns #4 itself,
+    the only existing cell written is #2 (the container `a`), slot 0 of the new list is the shared nil leaf -/
+theorem nonvacuous_heap_addValueAt :
+    ((addValueAtH exB 3 "a.c[1].d" 4).bind fun h' => abs h' 3) =
+      (abs exB 3).bind (fun n => match n, abs exB 4 with
+        | .cont d, some v => some (.cont (addValueAt d "a.c[1].d" v))
+        | _, _ => none) ∧
+    (abs exB 3).isSome = true ∧
+    ((addValueAtH exB 3 "a.c[1].d" 4).bind fun h' => lookupH h' 3 "a.c[1].d") = some 4 ∧
+    ((addValueAtH exB 3 "a.c[1].d" 4).map fun h' =>
+      (List.range 5).filter fun a => h'.get? a != exB.get? a) = some [2] ∧
+    ((addValueAtH exB 3 "a.c[1].d" 4).bind fun h' => lookupH h' 3 "a.c[0]") = some nilAddr := by
+  decide +kernel
+
+/-- handles: `x := root.Child("a")` (#2); a write through the live handle is the root-level path
+    write; `root.AddContainer("a")` returns a NEW empty cell (#5) and detaches #2: a later write through
+    the old handle #2 is invisible from the root -/
+theorem nonvacuous_heap_handles :
+    childH exB 3 "a" = some 2 ∧ ancestorH exB 3 ["a", "z"] = some 2 ∧
+    addH exB 2 "z" 4 = addValueAtH exB 3 "a.z" 4 ∧
+    ((addContainerH exB 3 "a").map fun p => (p.2, p.1.get? p.2, childH p.1 3 "a")) = some (5, some (.cont []), some 5) ∧
+    ((addContainerH exB 3 "a").bind fun p => (addH p.1 2 "z" 4).bind fun h2 => abs h2 3) =
+      ((addContainerH exB 3 "a").bind fun p => abs p.1 3) ∧
+    ((addContainerH exB 3 "a").bind fun p => abs p.1 3).isSome = true := by
+  decide +kernel
+
+/-- the value-level result the run below must have -/
+def exRunValue : Option Node :=
+  (abs exB 3).bind (fun n => match n with
+    | .cont d => (match brun d [.addValueAt "a.c" (.leaf ⟨"string", "v"⟩), .remove "n"] with
+      | .ok d' => some (.cont d')
+      | _ => none)
+    | _ => none)
+
+def exRunCheck : Bool :=
+  match hstep exB (.addValueAt 3 "a.c" 4) with
+  | .ok p =>
+    match hstep p.1 (.remove 3 "n") with
+    | .ok q => decide (abs q.1 3 = exRunValue) && (abs q.1 3).isSome
+    | _ => false
+  | _ => false
+
+/-- a `TreeRun` on `exB`: `root.AddValueAt("a.c", #4)` then `root.Remove("n")` — every hypothesis of
+    `heap_run_tree` / `heap_step_refines_bstep` is satisfiable, and the run is the value-level `brun` -/
+theorem nonvacuous_heap_tree_run :
+    ∃ h', TreeRun 3 exB [.addValueAt 3 "a.c" 4, .remove 3 "n"] h' ∧ abs h' 3 = exRunValue ∧
+      (abs h' 3).isSome = true := by
+  have hleaf4 : exB.get? 4 = some (.leaf ⟨"string", "v"⟩) := rfl
+  have hok1 : (HOp.addValueAt 3 "a.c" 4).TreeOk exB 3 := by
+    refine ⟨.refl _, fun v hv => ?_⟩
+    simp only [HOp.value, Option.some.injEq] at hv
+    subst hv
+    refine ⟨by decide, ?_, ?_⟩
+    · intro a c ha hg i j ki kj hi
+      have := Reach.of_leaf hleaf4 ha
+      subst this
+      rw [hleaf4] at hg; cases hg
+      simp [Cell.kids] at hi
+    · intro b _ hb hcomp
+      have := Reach.of_leaf hleaf4 hb
+      subst this
+      obtain ⟨cell, hgc, hl⟩ := hcomp
+      rw [hleaf4] at hgc; cases hgc
+      simp [Cell.isLeaf] at hl
+  have key : exRunCheck = true := by decide +kernel
+  unfold exRunCheck at key
+  cases he1 : hstep exB (.addValueAt 3 "a.c" 4) with
+  | err => rw [he1] at key; cases key
+  | panic => rw [he1] at key; cases key
+  | ok p1 =>
+    obtain ⟨h1, r1⟩ := p1
+    rw [he1] at key
+    simp only at key
+    have hok2 : (HOp.remove 3 "n").TreeOk h1 3 := ⟨.refl _, fun v hv => by simp [HOp.value] at hv⟩
+    cases he2 : hstep h1 (.remove 3 "n") with
+    | err => rw [he2] at key; cases key
+    | panic => rw [he2] at key; cases key
+    | ok p2 =>
+      obtain ⟨h2, r2⟩ := p2
+      rw [he2] at key
+      simp only [Bool.and_eq_true, decide_eq_true_eq] at key
+      exact ⟨h2, .cons hok1 he1 (.cons hok2 he2 (.nil _)), key.1, key.2⟩
+
+end heap
 
 end Ytk.C03
